@@ -11,7 +11,7 @@ ASSUMPTIONS = ["data without NaN", "numeric labels"]
 
 FLOORS = {"order=inc": (500, 500), "order=dec": (500, 500), "order=shuffled": (500, 500), "pt=below": (500, 500), "pt=node": (500, 500),
           "pt=between": (500, 500), "pt=above": (500, 500), "fills": (500, 500), "ndim=1": (500, 500), "ndim=2": (500, 500), "ndim=3": (100, 100),
-          "issorted": (100, 100), "one-node": (100, 100), "interp_like": (20, 20), "like-two-dims": (10, 10)}
+          "issorted": (100, 100), "one-node": (100, 100), "interp_like": (20, 20), "dataset": (10, 10), "like-two-dims": (10, 10)}
 
 
 def tlc_jobs(tier, seed):
@@ -31,6 +31,8 @@ def _order(L):
 def classify(scn):
     if scn["op"] == "interp_like":
         return ["interp_like"] + (["like-two-dims"] if all(scn["in"]["new"]) else [])
+    if scn["op"] == "interp_ds":
+        return ["dataset"]
     i = scn["in"]
     L = i["a"]["labs"][i["d"] - 1]
     out = ["order=" + _order(L), "ndim=%d" % len(i["a"]["dims"])]
@@ -120,9 +122,59 @@ def _replay_like(scn):
     return dict(violations=viol, calls=calls)
 
 
+def _replay_ds(scn):
+    """Dataset.interp_axis / interp_like: variables having the axis equal the DimArray result, the others are unchanged, metadata kept"""
+    i = scn["in"]
+    exp = scn["out"]
+    like, bypos = i["fills"], i["issorted"]
+    codec = A.LabelCodec(mixed=True)
+    a = A.gamma(i["a"], codec, ["i", "f"])
+    ds = A.Dataset()
+    ds["a"] = a
+    ds["b"] = a.T * 2
+    ds["c"] = a.take({"x": a.axes["x"].values[0]}) + 1
+    for k in ds.keys():
+        ds[k].attrs.update(A.attrs_enc(3))
+    ds.attrs.update(A.attrs_enc(9))
+    newx = codec.enc_seq(i["new"], "f")
+    vals = [_val(c, "f", np.nan, np.nan) for c in exp["cells"]]
+    from .c15 import deep_snapshot
+    before = deep_snapshot(ds)
+    what = None
+    try:
+        if like:
+            res = ds.interp_like(A.DimArray(np.zeros(len(newx)), axes=[A.Axis(newx, "x")]))
+        else:
+            res = ds.interp_axis(newx, axis=(0 if bypos else "x"))
+    except Exception as e:  # noqa
+        what = "raised %s: %s" % (type(e).__name__, str(e)[:200])
+    if what is None and deep_snapshot(ds) != before:
+        what = "the operand Dataset was modified"
+    if what is None:
+        ra = res["a"]
+        act = ra.values.ravel().tolist()
+        pa = A.project_axes(ra, codec)
+        if pa["dims"] != exp["dims"] or pa["labs"] != exp["labs"]:
+            what = "variable a: axes expected %s %s got %s %s" % (exp["dims"], exp["labs"], pa["dims"], pa["labs"])
+        elif len(act) != len(vals) or not all(_close(x, y) for x, y in zip(vals, act)):
+            what = "variable a: values expected %s got %s" % (vals, act)
+        elif not np.allclose(res["b"].values, (ra.values * 2).T, equal_nan=True):
+            what = "variable b(y,x) differs from twice the transposed a"
+        elif not np.array_equal(res["c"].values, ds["c"].values) or res["c"].dims != ds["c"].dims:
+            what = "variable c (lacking x) changed"
+        elif A.attrs_dec(res.attrs) != 9:
+            what = "dataset metadata not carried over: %r" % (dict(res.attrs),)
+        elif any(A.attrs_dec(res[k].attrs) != 3 for k in ("a", "b", "c")):
+            what = "variable metadata not carried over: %r" % ({k: dict(res[k].attrs) for k in res.keys()},)
+    viol = [dict(what=what, sig="interp_ds/like=%s/bypos=%s/npts=%d" % (like, bypos, len(i["new"])), variant="dataset")] if what else []
+    return dict(violations=viol, calls=1)
+
+
 def replay(scn):
     if scn["op"] == "interp_like":
         return _replay_like(scn)
+    if scn["op"] == "interp_ds":
+        return _replay_ds(scn)
     i = scn["in"]
     a_abs = i["a"]
     exp = scn["out"]
